@@ -321,7 +321,7 @@ theorem inv_makeBackupFor (hF : Framed I) {o : Options} {p : Bytes} (h : PathOk 
     exact this.out _ (hF.frame s _ hs rfl rfl rfl rfl rfl rfl rfl)
   · exact hs
 theorem inv_makeWritable (hF : Framed I) {p : Bytes} (h : PathOk I p) (perm : PermResult) : Inv I (makeWritable perm p) := by
-  unfold makeWritable; dm_walk [inv_opChmod hF h _]
+  unfold makeWritable; dm_walk [inv_opChmod hF h _, inv_fsExists _]
 theorem inv_writePatchedResult (hF : Framed I) {o : Options} {out : Bytes} (h : PathOk I out)
     (hb : PathOk I (backupName o out)) (hr : RenameOk I out (backupName o out))
     (hw : ∀ w : DeferredWrite, w.dest = out → Stable I (fun s => { s with dWrites := s.dWrites ++ [w] }))
